@@ -37,7 +37,7 @@ Qed.
 
 (* the bounded merge = the last min(n,total) entries of the linearisation of the unbounded merge *)
 Theorem C16_bounded_join_keeps_newest ops r src l o size lu :
-  wf ops -> Z.of_nat (length ops) < two63 ->
+  wf ops -> hist_bound ops < two63 ->
   nth_error (s_logs (run ops)) r = Some l -> nth_error (s_logs (run ops)) src = Some o ->
   l_id l = l_id o -> 0 <= size ->
   join l o false (-1) = (lu, Ok tt) ->                     (* the unbounded merge is accepted *)
@@ -70,7 +70,7 @@ Qed.
    state later merges read) names exactly the predecessors of the kept entries and has forgotten the
    dropped ones *)
 Theorem C16_bounded_join_forgets_dropped_entries ops r src l o size lu :
-  wf ops -> Z.of_nat (length ops) < two63 ->
+  wf ops -> hist_bound ops < two63 ->
   nth_error (s_logs (run ops)) r = Some l -> nth_error (s_logs (run ops)) src = Some o ->
   l_id l = l_id o -> 0 <= size ->
   join l o false (-1) = (lu, Ok tt) -> order_total lu ->
@@ -148,7 +148,7 @@ Qed.
 (* ... and its Values() is a complete, duplicate-free linearisation, sorted by the ordering and with
    every entry after those of its predecessors that the log still holds (C03 for truncated logs) *)
 Theorem C16_truncated_logs_linearise ops r l :
-  pwf ops -> Z.of_nat (length ops) < two63 -> nth_error (s_logs (run ops)) r = Some l -> order_total l ->
+  pwf ops -> hist_bound ops < two63 -> nth_error (s_logs (run ops)) r = Some l -> order_total l ->
   exists v, values l = Some v /\
     NoDup (okeys v) /\
     (forall k e, In (k, e) v <-> In (k, e) (l_entries l)) /\
@@ -165,7 +165,7 @@ Qed.
 
 (* the main clause for ALL pairs of logs: any two replicas of any history with any earlier bounds *)
 Theorem C16_bounded_join_keeps_newest_all_pairs ops r src l o size lu :
-  pwf ops -> Z.of_nat (length ops) < two63 ->
+  pwf ops -> hist_bound ops < two63 ->
   nth_error (s_logs (run ops)) r = Some l -> nth_error (s_logs (run ops)) src = Some o ->
   l_id l = l_id o -> 0 <= size ->
   join l o false (-1) = (lu, Ok tt) ->                     (* the unbounded merge is accepted *)
